@@ -21,7 +21,7 @@ func init() { vk.Children["c13"] = child }
 
 func universeConfigs(r *vk.Run) []Config {
 	rng := r.Rand("universes")
-	n := r.N(6, 40)
+	n := r.N(6, 80)
 	var out []Config
 	for i := 0; i < n; i++ {
 		c := Config{ID: i, Blocks: uint64(r.N(60, 300)), BlockTime: time.Duration(2+rng.Intn(4)) * time.Millisecond, DATime: time.Duration(3+rng.Intn(8)) * time.Millisecond,
